@@ -19,7 +19,7 @@ template <typename M, typename N>
     requires(is_integral_v<M> and not is_same_v<M, bool> and is_integral_v<N> and not is_same_v<N, bool>)
 [[nodiscard]] constexpr auto lcm(M m, N n) -> common_type_t<M, N>
 {
-    return (m * n) / gcd(m, n);
+    return (m / gcd(m, n)) * n;
 }
 
 } // namespace etl
